@@ -56,6 +56,8 @@ struct Node {
     next: Succ,
 }
 
+const EOL: usize = 1 << 60;
+
 #[derive(Clone, Debug)]
 enum Frame {
     For { var: String, to: V, step: V, body: usize },
@@ -513,6 +515,9 @@ impl Machine {
                 }
             }
             let in_direct = node.line.is_none();
+            // a frame pushed by the last statement of a line resumes "at the end of that line"
+            let eol = matches!(node.next, Succ::AfterLine(_));
+            let mark = |n: usize| if eol { n | EOL } else { n };
             let mut next = self.resolve(&node.next);
             macro_rules! tryx {
                 ($e:expr) => {
@@ -624,13 +629,16 @@ impl Machine {
                             Ok(t) => t,
                             Err(e) => return e,
                         };
-                        self.frames.push(Frame::Gosub { ret: next });
+                        self.frames.push(Frame::Gosub { ret: mark(next) });
                         next = t;
                     }
                     Stmt::Return => loop {
                         match self.frames.pop() {
                             Some(Frame::Gosub { ret }) => {
-                                next = ret;
+                                if ret & EOL != 0 && self.tron {
+                                    return End::Undefined("return to the end of a line under TRON".into());
+                                }
+                                next = ret & !EOL;
                                 break;
                             }
                             Some(Frame::For { .. }) => continue,
@@ -654,7 +662,7 @@ impl Machine {
                                 Err(e) => return e,
                             };
                             if matches!(s, Stmt::OnGosub(..)) {
-                                self.frames.push(Frame::Gosub { ret: next });
+                                self.frames.push(Frame::Gosub { ret: mark(next) });
                             }
                             next = t;
                         }
@@ -670,7 +678,7 @@ impl Machine {
                         if matches!(to, V::Str(_)) || matches!(step, V::Str(_)) {
                             return End::Undefined("string FOR bound".into());
                         }
-                        self.frames.push(Frame::For { var: var.clone(), to, step, body: next });
+                        self.frames.push(Frame::For { var: var.clone(), to, step, body: mark(next) });
                     }
                     Stmt::Next(vars) => {
                         let names: Vec<Option<&String>> =
@@ -703,7 +711,10 @@ impl Machine {
                             self.branches += 1;
                             if done == V::Int(0) {
                                 self.frames.push(Frame::For { var, to, step, body });
-                                next = body;
+                                if body & EOL != 0 && self.tron {
+                                    return End::Undefined("loop back to the end of a line under TRON".into());
+                                }
+                                next = body & !EOL;
                                 looped = true;
                                 break;
                             }
